@@ -402,7 +402,61 @@ def clause_optimiser(cases, ctx: Ctx):
     return out
 
 
-CLAUSES = {"loss": clause_loss, "onpolicy": clause_onpolicy, "optimiser": clause_optimiser}
+# ---------------------------------------------------------------------------------------
+# wiring: the algorithm's own train() must evaluate its loss with ITS hyper-parameters
+# ---------------------------------------------------------------------------------------
+def clause_wiring(cases, ctx: Ctx):
+    """case: {algo, normalize, clip_value, eps, cv, ce}: every knob away from its default and from every other knob.  SGD(1) is swapped in
+    for the optimiser, so the step applied by the real train() is minus the gradient it computed; it must equal the gradient of the
+    (separately verified) static loss evaluated with the hyper-parameters the algorithm object was constructed with."""
+    import optax
+
+    out = []
+    B = 3
+    lg = np.asarray([LOGITS_ROW[0], LOGITS_ROW[1], LOGITS_ROW[2]])
+    lsm = log_softmax(lg.astype(np.float64))
+    act = [0, 2, 1]
+    # old log-probs put the ratios at 0.7, 1.3 and 1.0: inside the 0.4 clip range, outside the 0.2 one
+    old_lp = lsm[np.arange(B), act] - np.log(np.asarray([0.7, 1.3, 1.0]))
+    buf = make_buffer(B, act, [1.5, 1.0, -0.5], [2.0, -1.0, 0.5], old_lp, [0.0, 0.3, -0.2])
+    theta = lambda p: np.concatenate([np.asarray(p.logits, dtype=np.float64).ravel(), np.asarray(p.values, dtype=np.float64).ravel()])
+    flat = lambda g: np.concatenate([np.asarray(g.logits, dtype=np.float64).ravel(), np.asarray(g.values, dtype=np.float64).ravel()])
+    for ci, c in enumerate(cases):
+        name, nz, clv, eps, cv, ce = c["algo"], c["normalize"], c["clip_value"], c["eps"], c["cv"], c["ce"]
+        pol = TabularAC(lg, np.asarray([0.4, -0.6, 0.1]))
+        if name == "PPO":
+            algo = PPO(num_envs=1, num_steps=B, num_batches=1, num_epochs=1, normalize_advantages=nz, clip_coefficient=eps, clip_value_loss=clv,
+                       value_loss_coefficient=cv, entropy_loss_coefficient=ce)
+            (_, _), g = PPO.ppo_loss_grad(pol, buf, nz, eps, clv, cv, ce)
+            alts = {"clip_coefficient": lambda: PPO.ppo_loss_grad(pol, buf, nz, 0.2, clv, cv, ce), "clip_value_loss": lambda: PPO.ppo_loss_grad(pol, buf, nz, eps, not clv, cv, ce),
+                    "normalize_advantages": lambda: PPO.ppo_loss_grad(pol, buf, not nz, eps, clv, cv, ce), "coefficients-swapped": lambda: PPO.ppo_loss_grad(pol, buf, nz, eps, clv, ce, cv)}
+        elif name == "A2C":
+            algo = A2C(num_envs=1, num_steps=B, normalize_advantages=nz, value_loss_coefficient=cv, entropy_loss_coefficient=ce)
+            (_, _), g = A2C.a2c_loss_grad(pol, buf, nz, cv, ce)
+            alts = {"normalize_advantages": lambda: A2C.a2c_loss_grad(pol, buf, not nz, cv, ce), "coefficients-swapped": lambda: A2C.a2c_loss_grad(pol, buf, nz, ce, cv)}
+        else:
+            algo = REINFORCE(num_envs=1, num_steps=B, normalize_advantages=nz, value_loss_coefficient=cv)
+            (_, _), g = REINFORCE.reinforce_loss_grad(pol, buf, nz, cv)
+            alts = {"normalize_advantages": lambda: REINFORCE.reinforce_loss_grad(pol, buf, not nz, cv)}
+        object.__setattr__(algo, "optimizer", optax.sgd(1.0))
+        opt = algo.optimizer.init(eqx.filter(pol, eqx.is_inexact_array))
+        new, _, _ = algo.train(pol, opt, buf, key=jr.key(c["key"]))
+        got = theta(pol) - theta(new)
+        want = flat(g)
+        ctx.guard("wiring-gradient-nonzero", int(np.abs(want).max() > 1e-3))
+        if not np.all(refs.close(got, want, 1e-4)):
+            sig = f"C08/wiring/{name.lower()}"
+            for k, fn in alts.items():
+                ga = flat(fn()[1])
+                if not np.all(refs.close(ga, want, 1e-4)) and np.all(refs.close(got, ga, 1e-4)):
+                    sig += f"/{k}"
+                    break
+            out.append((ci, sig, f"{name}(normalize_advantages={nz}, clip_coefficient={eps}, clip_value_loss={clv}, value_loss_coefficient={cv}, entropy_loss_coefficient={ce}).train "
+                                 f"applied the step {got.tolist()} (SGD, lr 1); the gradient of its objective with these hyper-parameters is {want.tolist()}"))
+    return out
+
+
+CLAUSES = {"loss": clause_loss, "onpolicy": clause_onpolicy, "optimiser": clause_optimiser, "wiring": clause_wiring}
 
 ADV = [-2.0, -0.5, 0.0, 0.5, 2.0]
 RATIO = [0.5, 0.79, 0.81, 1.0, 1.19, 1.21, 2.0]
@@ -492,6 +546,11 @@ def explore(ctx: Ctx):
                 opt.append(dict(algo=algo, lr=lr, max_grad_norm=mg, scales=[50.0, 0.01]))
                 opt.append(dict(algo=algo, lr=lr, max_grad_norm=mg, scales=[0.01, 50.0]))
     ctx.run("optimiser", opt)
+    wiring = [dict(algo=a, normalize=nz, clip_value=clv, eps=0.4, cv=cv, ce=ce, key=ctx.seed)
+              for a in ("PPO", "A2C", "REINFORCE") for nz in (False, True) for clv in ((False, True) if a == "PPO" else (False,))
+              for (cv, ce) in ((0.7, 0.3), (0.25, 0.0))]
+    ctx.run("wiring", wiring)
+    ctx.notes["wiring_cases"] = len(wiring)
     ctx.notes["loss_cases"] = len(cases)
     ctx.require("gradient-cases", "support-clipped-out-rows", "support-active-rows", "value-clipped-larger", "value-clipped-smaller",
-                "opt-first-clipped", "opt-second-clipped", "onpolicy-clipped-actions")
+                "opt-first-clipped", "opt-second-clipped", "onpolicy-clipped-actions", "wiring-gradient-nonzero")
